@@ -28,6 +28,17 @@ def apply(b, kw):
         return kw[b[1]]
     if op == "sum":
         return sum(kw[p] for p in b[1:])
+    if op == "append_mut":  # mutates the received list, returns a snapshot of it
+        kw[b[1]].append(kw[b[2]])
+        return tuple(kw[b[1]])
+    if op == "setitem_mut":
+        kw[b[1]][kw[b[2]]] = len(kw[b[1]])
+        return tuple(sorted(kw[b[1]].items()))
+    if op == "nested_mut":  # mutates a list nested inside the received dict
+        kw[b[1]]["items"].append(kw[b[2]])
+        return tuple(kw[b[1]]["items"])
+    if op == "snapshot":  # ("snapshot", p...) -> tuple of (type-aware) copies
+        return tuple(tuple(kw[p]) if isinstance(kw[p], list) else kw[p] for p in b[1:])
     if op == "pair+":  # two outputs: (p+1, p*2)
         return (kw[b[1]] + 1, kw[b[1]] * 2)
     raise ValueError(op)
